@@ -559,13 +559,18 @@ class Exec(object):
         args = list(args)
         kwargs = dict(kwargs)
         n = len(params)
-        if len(args) > n:
+        if args and isinstance(args[-1], SymVarArgs):
+            if a.vararg is None or len(args) - 1 != n:
+                raise Unsupported('symbolic *args do not line up with the callee signature')
+            loc[a.vararg.arg] = args[-1].slist
+            args = args[:-1]
+        elif len(args) > n:
             if a.vararg is None:
                 self.throw('TypeError', '%s() takes %d positional arguments but %d were given'
                            % (f.qualname, n, len(args)))
             loc[a.vararg.arg] = STuple(args[n:])
             args = args[:n]
-        elif a.vararg is not None:
+        elif a.vararg is not None and a.vararg.arg not in loc:
             loc[a.vararg.arg] = STuple()
         for i, v in enumerate(args):
             loc[params[i]] = v
@@ -1157,7 +1162,15 @@ class Exec(object):
         for a in e.args:
             if isinstance(a, ast.Starred):
                 sv = self.eval(a.value)
-                if isinstance(sv, SBytes) and sv.concrete_len() is None:
+                if isinstance(sv, RangeVal) and sv.step == 1 and not (
+                        isinstance(sv.start, int) and isinstance(sv.stop, int)) and self.has_vararg(f):
+                    n = self.range_len(sv)
+                    st = sv.start
+                    l = SList([])
+                    l.mid = SymSeg(n, lambda i, st=st: mk_int(zint(st) + i), 0,
+                                   tag=self.fresh_name('star!range'))
+                    args.append(SymVarArgs(l))
+                elif isinstance(sv, SBytes) and sv.concrete_len() is None:
                     args.extend(self.expand_star_bytes(f, len(args), sv))
                 else:
                     args.extend(natives.iterate(self, sv))
@@ -1175,6 +1188,11 @@ class Exec(object):
                 kwargs[k.arg] = self.eval(k.value)
         self.cur_call = e
         return self.call(f, args, kwargs)
+
+    def has_vararg(self, f):
+        if isinstance(f, BoundMethod):
+            f = f.func
+        return isinstance(f, FuncVal) and f.node.args.vararg is not None
 
     def callee_arity(self, f):
         """(min, max) number of positional arguments, None if unknown/unbounded"""
